@@ -1,0 +1,52 @@
+//go:build verif
+
+package meta
+
+// Contracts for the deductive verifier in /verif (govc). Comment-only file.
+
+//@ // representation invariant of a Meta: stored values are never nil nodes
+//@ pure func wfMeta(m *Meta) bool = forall k string :: has(m.Values, k) ==> m.Values[k] != nil
+//@
+//@ // ---- C20: read-only operations write nothing that existed before the call -------------------------
+//@ func (*Meta).GetBool
+//@   requires m != nil && wfMeta(m)
+//@   assigns [C20] nothing
+//@ func (*Meta).GetString
+//@   requires m != nil && wfMeta(m)
+//@   assigns [C20] nothing
+//@ func (*Meta).GetInt64
+//@   requires m != nil && wfMeta(m)
+//@   assigns [C20] nothing
+//@ func (*Meta).GetFloat64
+//@   requires m != nil && wfMeta(m)
+//@   assigns [C20] nothing
+//@ func (*Meta).GetBytes
+//@   requires m != nil && wfMeta(m)
+//@   assigns [C20] nothing
+//@ func (*Meta).GetNode
+//@   requires m != nil
+//@   assigns [C20] nothing
+//@ func (*Meta).Iter
+//@   requires m != nil
+//@   assigns [C20] nothing
+//@ func (*Meta).Iter$1
+//@   requires m != nil && yield != nil
+//@   assigns [C20] nothing
+//@   loop 0: invariant 0 <= k && k <= len(m.Keys)
+//@           decreases len(m.Keys) - k
+//@ func (*Meta).Equals
+//@   requires m != nil && other != nil
+//@   assigns [C20] nothing
+//@   loop 0: invariant 0 <= k && k <= len(m.Keys)
+//@           decreases len(m.Keys) - k
+//@ func (*Meta).String
+//@   requires m != nil
+//@   assigns [C20] nothing
+//@   loop 0: invariant 0 <= k && k <= len(keys)
+//@           decreases len(keys) - k
+//@ func (*Meta).ReadOnly
+//@   assigns [C20] nothing
+//@ func (*Meta).Clone
+//@   requires m != nil
+//@   assigns [C20] nothing
+//@   loop 0: invariant fresh(res)
